@@ -198,6 +198,7 @@ pub fn subterms(t: &Sx, out: &mut Vec<Sx>) {
 /// rewriting streams switch the five-slot symmetry motif off: with a class of 120 symmetries used twice by a parent, every
 /// insertion enumerates 120 x 120 variants (proven_proven_pre_shape) - finite, but minutes per case
 pub static BIG_SYMMETRY: std::sync::atomic::AtomicBool = std::sync::atomic::AtomicBool::new(true);
+pub static MOTIF_BIAS: std::sync::atomic::AtomicU64 = std::sync::atomic::AtomicU64::new(u64::MAX);
 
 fn rng_kind(x: u64) -> u64 { x % 2 }
 
@@ -207,7 +208,9 @@ pub fn gen_history(rng: &mut Rng, justified: bool) -> (Vec<Sx>, Vec<Sx>, String)
     let mut ops: Vec<Sx> = vec![];
     let mut nadd = 0u64;
     let mut jn = 0u64;
-    let motif = rng.below(11);
+    // a component may bias the choice towards one motif (e.g. the unobserved streams towards the chain motif)
+    let bias = MOTIF_BIAS.load(std::sync::atomic::Ordering::Relaxed);
+    let motif = if bias != u64::MAX && rng.chance(1, 2) { bias } else { rng.below(11) };
     let mut skip_random = false;
     let mut add = |t: Sx, terms: &mut Vec<Sx>, ops: &mut Vec<Sx>, nadd: &mut u64| -> u64 {
         let k = match terms.iter().position(|x| *x == t) { Some(k) => k, None => { terms.push(t); terms.len() - 1 } };
